@@ -8,3 +8,7 @@ def run(ctx, rep):
     more.rule_arg_exclusive(ctx.mod, rep)
     from ..rules import more4
     more4.rule_xerbla_readonly(ctx.mod, rep)
+    from ..rules import driver
+    driver.rule_expert_argcodes(ctx.mod, rep)
+    from ..rules import more5
+    more5.rule_info_init(ctx.mod, rep)
